@@ -21,6 +21,8 @@ CONSTANTS Size,      \* window size
           MaxEv,     \* number of Add calls explored
           ChanCap,   \* watermark channel capacity (100 in the code)
           Reanchor,  \* TRUE: Add moves currentSlot back for an on-time row that precedes it
+          LateAll,   \* TRUE (the code since the repair): a late row updates EVERY open fired window containing it, also when it
+                     \* lies in the current window as well; FALSE: the old handleLateData (one window, none when in the current one)
           Emit       \* TRUE: print every complete behaviour as a JSON scenario
 
 VARIABLES data, cur, maxTs, wmCur, wmSent, wmChan, open, tpc, twm, pend, out, emitted, hist
@@ -45,6 +47,16 @@ NewMax(ts) == IF maxTs = -1 \/ ts > maxTs THEN ts ELSE maxTs
 NewWm(ts)  == IF (maxTs = -1 \/ ts > maxTs) /\ ts - MOO > wmCur THEN ts - MOO ELSE wmCur
 
 (* ---------------- TumblingWindow.Add -------------------------------------- *)
+\* triggerLateUpdateLocked for each listed open window: snapshot + rows still buffered, de-duplicated
+RECURSIVE LateUpd(_, _, _, _, _)
+LateUpd(op, o, d1, idxs, mx) ==
+  IF idxs = <<>> THEN [op |-> op, o |-> o]
+  ELSE LET i    == Head(idxs)
+           ws   == op[i].ws
+           have == {op[i].snap[k].id : k \in 1..Len(op[i].snap)}
+           mine == SelectSeq(d1, LAMBDA r : InWin(r.ts, ws) /\ r.id \notin have)
+           rows == op[i].snap \o mine
+       IN LateUpd([op EXCEPT ![i].snap = rows], Append(o, [ws |-> ws, ids |-> Ids(rows), kind |-> "late", maxAt |-> mx]), d1, Tail(idxs), mx)
 OpenIdx(ts) == {i \in 1..Len(open) : InWin(ts, open[i].ws)}
 
 Add(ts) ==
@@ -63,13 +75,20 @@ Add(ts) ==
      /\ maxTs' = NewMax(ts) /\ wmCur' = wm1
      /\ wmSent' = IF send THEN wm1 ELSE wmSent
      /\ wmChan' = IF send THEN Append(wmChan, wm1) ELSE wmChan
-     /\ emitted' = Append(emitted, [id |-> id, ts |-> ts, late |-> late])
+     /\ emitted' = Append(emitted, [id |-> id, ts |-> ts, late |-> late, owed |-> IF late /\ AL > 0 THEN {open[i].ws : i \in oi} ELSE {}])
      /\ hist' = Append(hist, [a |-> "add", id |-> id, ts |-> ts])
-     /\ IF ~late \/ inCur
+     /\ IF ~late \/ (inCur /\ ~LateAll)
           THEN /\ data' = d1 /\ open' = open /\ out' = out
                /\ cur' = IF Reanchor /\ ~late /\ ts < cur0 /\ InWin(ts, Align(ts)) THEN Align(ts) ELSE cur0
+          ELSE IF LateAll
+                 THEN \* handleLateData (repaired): every open window containing ts, in window order; the row stays buffered when it
+                      \* lies in the current window or in an open one, otherwise dropLastRow
+                      LET idxs == SelectSeq([k \in 1..Len(open) |-> k], LAMBDA k : AL > 0 /\ k \in oi)
+                          r    == LateUpd(open, out, d1, idxs, NewMax(ts))
+                      IN /\ data' = IF inCur \/ idxs # <<>> THEN d1 ELSE data
+                         /\ open' = r.op /\ out' = r.o /\ cur' = cur0
           ELSE IF AL > 0 /\ oi # {}
-                 THEN \* handleLateData: ONE open window containing ts (map order); snapshot + rows still buffered, de-duplicated
+                 THEN \* handleLateData (old): ONE open window containing ts (map order); snapshot + rows still buffered, de-duplicated
                       \E i \in oi :
                       LET ws   == open[i].ws
                           have == {open[i].snap[k].id : k \in 1..Len(open[i].snap)}
@@ -165,6 +184,10 @@ NoOnTimeLoss ==
   Quiet => \A id \in OnTime : \A ws \in Covers(Ts(id)) :
               (ws >= S0 /\ ws + Size <= wmCur) => Delivered(id, ws)
 NotBeforeS0 == \A i \in 1..Len(out) : (OnTime # {} /\ out[i].kind = "first") => out[i].ws >= S0 \/ \E k \in 1..Len(out[i].ids) : emitted[out[i].ids[k]].late
+
+\* C02(c): a late row is re-delivered with EVERY fired window that contained it and was still open when it arrived
+LateRedelivered == \A id \in 1..Len(emitted) : \A ws \in emitted[id].owed :
+                      \E i \in 1..Len(out) : out[i].kind = "late" /\ out[i].ws = ws /\ id \in SeqSet(out[i].ids)
 
 DeadBandSilent == TRUE
 
